@@ -1,6 +1,7 @@
 import YaqsModel.Basic.Parse
 import YaqsModel.Model.Layers
 import YaqsModel.Model.GateWindow
+import YaqsModel.Model.ColumnsExec
 /-!
 line protocol for the layer loop (C02, C16)
 
@@ -24,6 +25,13 @@ line protocol for the layer loop (C02, C16)
   `pairapply p0 p1 a m b l r | L | R | W0 | W1 | A0 | A1`
         → `p0*p1 a b` and the entries of `project_site(L, R, merge_mpo_tensors(W0, W1), merge_mps_tensors(A0, A1))`
           (`L : (a,l,a)`, `R : (b,r,b)`, `W0 : (p0,p0,l,1)`, `W1 : (p1,p1,1,r)`, `A0 : (p0,a,m)`, `A1 : (p1,m,b)`)
+
+  request for `Model/ColumnsExec.lean` (x16d extension; the exact result table of a sampling run over ℚ(i)):
+  `colvals <n> <bits> | seg | seg …`  with `<bits>` the initial basis state (character `i` = site `i`) and segments, in program order,
+        `g1 <name> <q> [<c> <s>]` · `g2 <name> <a> <b> [<c> <s>]` · `m <q> <c>` · `b <label> <q…>`   (names: x y z id rx ry rz p /
+        cx cz cp rxx ryy rzz; `(c, s)` a rational point of the unit circle — half angle for r*, full angle for p / cp)
+        followed by the observable list `o1 <X|Y|Z> <site>` · `o2 <PQ> <site>` (Pauli pair on `(site, site+1)`)
+        → `cols=<rows> e<col> <value per observable…> e<col> …`  (exact rationals), `hang`, or `bad-op`
 -/
 open Yaqs Yaqs.Layers
 
@@ -166,8 +174,85 @@ def pairapply (ds : List Nat) (parts : List (List String)) : String :=
 
 end GateDrv
 
+namespace ColDrv
+open Yaqs.ColumnsExec
+
+structure Parsed (n : Nat) where
+  raw : List RawInstr := []
+  t1 : List (Nat × M2) := []
+  t2 : List (Nat × M4) := []
+  obs : List (ObsExec n) := []
+
+def lookup {α : Type} (d : α) (l : List (Nat × α)) (t : Nat) : α := ((l.find? (·.1 == t)).map (·.2)).getD d
+
+/-- one segment; `tag` (the position of the segment) names the gate in the instruction list -/
+def parseSeg (n tag : Nat) (p : Parsed n) : List String → Option (Parsed n)
+  | "g1" :: name :: q :: ps => do
+    let q ← q.toNat?
+    let ps ← parseAll? parseRat? ps
+    let m ← gate1? name ps
+    if q < n ∧ p.obs.isEmpty then pure { p with raw := p.raw ++ [.gate1 tag q], t1 := (tag, m) :: p.t1 } else none
+  | "g2" :: name :: a :: b :: ps => do
+    let a ← a.toNat?
+    let b ← b.toNat?
+    let ps ← parseAll? parseRat? ps
+    let m ← gate2? name ps
+    if a < n ∧ b < n ∧ a ≠ b ∧ p.obs.isEmpty then
+      pure { p with raw := p.raw ++ [.gate2 tag a b], t2 := (tag, m) :: p.t2 }
+    else none
+  | ["o1", P, s] => do
+    let s ← s.toNat?
+    match P.toList with
+    | [c] => do
+      let m ← pauli? c
+      if h : s < n then pure { p with obs := p.obs ++ [.one ⟨s, h⟩ m] } else none
+    | _ => none
+  | ["o2", PQ, s] => do
+    let s ← s.toNat?
+    match PQ.toList with
+    | [c, d] => do
+      let m ← pauli? c
+      let m' ← pauli? d
+      if h : s + 1 < n then pure { p with obs := p.obs ++ [.two ⟨s, by omega⟩ h (kronPair m m')] } else none
+    | _ => none
+  | seg => do
+    let i ← parseInstr? seg
+    if !p.obs.isEmpty then none else
+    match i with
+    | .measure q _ => if q < n then pure { p with raw := p.raw ++ [i] } else none
+    | .barrier qs _ => if qs.all (· < n) then pure { p with raw := p.raw ++ [i] } else none
+    | _ => none
+
+def parseSegs (n : Nat) : Nat → Parsed n → List (List String) → Option (Parsed n)
+  | _, p, [] => some p
+  | tag, p, seg :: rest => do
+    let p' ← parseSeg n tag p seg
+    parseSegs n (tag + 1) p' rest
+
+def colvals (hd : List String) (segs : List (List String)) : String :=
+  match hd with
+  | [n, bits] =>
+    match n.toNat? with
+    | some n =>
+      let bl := bits.toList
+      if bl.length ≠ n ∨ !(bl.all fun c => c == '0' || c == '1') ∨ n = 0 then "bad-op" else
+      match parseSegs n 1 {} segs with
+      | none => "bad-op"
+      | some p =>
+        if p.obs.isEmpty then "bad-op" else
+        let v0 := basisVec n fun i => if bl.getD i.val '0' == '1' then 1 else 0
+        match colValuesExec n (lookup Gates.one2 p.t1) (lookup (ofM4 Gates.one4) p.t2) v0 p.raw p.obs with
+        | none => "hang"
+        | some rows =>
+          joinWith " " (s!"cols={rows.length}" :: rows.flatMap fun r => s!"e{r.1}" :: r.2.map showRat)
+    | none => "bad-op"
+  | _ => "bad-op"
+
+end ColDrv
+
 def handle (line : String) : String :=
   match splitBar (words line) with
+  | ("colvals" :: hd) :: segs => ColDrv.colvals hd segs
   | [["gplan", l, a, b]] =>
     match l.toNat?, a.toNat?, b.toNat? with
     | some l, some a, some b => GateDrv.gplan l a b
